@@ -16,7 +16,7 @@ def announced(logs):
 def expected_after(prj, spec, new):
     exp = {}
     for fs in spec["files"]:
-        exp[fs.path] = fs.render(prj.render, new).encode("utf-8")
+        exp[fs.path] = fs.render(prj.render, new, spec["old"]).encode("utf-8")
     cfg = prj.config_text().replace('current_version = "%s"' % spec["old"], 'current_version = "%s"' % new, 1)
     exp[prj.fmt] = cfg.encode("utf-8")
     return exp
@@ -28,7 +28,7 @@ def classify_diff(prj, spec, fs, actual, new):
         out = []
         for segs, term in fs.lines:
             for s in segs:
-                out.append(s.value if s.kind == "text" else "\0")
+                out.append(s.value if s.kind == "text" else (prj.render(fs.patterns[s.value], spec["old"]) if s.kind == "dup" else "\0"))
             out.append(term)
         return "".join(out)
     try:
@@ -80,7 +80,7 @@ def run_update_projects(rep, tier, seed, focus, model_ok=True, effort=1, legacy_
     items, meta = [], []
     for i in range(n):
         legacy = r.random() < legacy_share
-        spec = rwgen.gen_project(r, impl, legacy=legacy)
+        spec = rwgen.gen_project(r, impl, legacy=legacy, allow_dup=(focus == "outside"))
         if not spec["old"]:
             continue
         with rwgen.to_temp_project(project, spec) as prj:
